@@ -235,6 +235,11 @@ def variants(src: str, name: str) -> dict[str, bytes]:
     return out
 
 
+# statements that are diagnosed at a column > 1 when they are line 1 of a file
+FIRST_LINES = ['text = repr(print(""))', "x = int(0)", "y = 1; z = not not y", "print(str(''), int(0), sep='')",
+               "ok = 1 if 1 else (1 == 1 or 1 == 2)", "nums = [1]; nums.append(2); w = list(nums)[::-1]"]
+
+
 def run(ctx: Ctx) -> None:
     ctx.trusted_base += [
         "Coq 8.16.1 kernel",
@@ -269,6 +274,19 @@ def run(ctx: Ctx) -> None:
         files = []
         for sp in seeds:
             for nm, data in variants(Path(sp).read_text("utf8"), Path(sp).name).items():
+                p = Path(td) / nm
+                p.write_bytes(data)
+                files.append(str(p))
+        # diagnostics on the very first line, where a byte-order mark (and what is done about it) shifts columns
+        for k, first in enumerate(FIRST_LINES):
+            for nm, data in {
+                f"first{k}_plain.py": first.encode("utf8") + b"\n",
+                f"bomfirst{k}_plain.py": b"\xef\xbb\xbf" + first.encode("utf8") + b"\n",
+                f"bomfirst{k}_crlf.py": b"\xef\xbb\xbf" + first.encode("utf8") + b"\r\nz = int(0)\r\n",
+                f"bomfirst{k}_nonascii.py": b"\xef\xbb\xbf" + ('"\u00e9\u4e2d"; ' + first).encode("utf8") + b"\n",
+                f"bomfirst{k}_cookie.py": b"\xef\xbb\xbf" + first.encode("utf8") + b"\n# -*- coding: utf-8 -*-\nz = int(0)\n",
+                f"bomfirst{k}_noeol.py": b"\xef\xbb\xbf" + first.encode("utf8"),
+            }.items():
                 p = Path(td) / nm
                 p.write_bytes(data)
                 files.append(str(p))
